@@ -179,7 +179,9 @@ RelV(a, b) ==
                           IF b.before.tr[i][2] # ConceptRole /\ b.before.tr[i][3] \in Vars(b.before) THEN ren(b.before.tr[i][3]) ELSE b.before.tr[i][3]>>])>> >>, 1)
          IN IF v # Acc THEN v
             ELSE IF ~a.plan.known THEN NA("prefix of a non-ASCII concept not computable by the specification (bijection clauses held)")
-            ELSE IF map # a.plan.map THEN Drift("names differ from the depth-first first-free-candidate plan") ELSE Acc
+            \* "a bijection chosen from the node concepts in depth-first order": node after node in depth-first order, each gets the
+            \* first candidate of the format (i = 0, 1, ...) that no earlier node was given
+            ELSE IF map # a.plan.map THEN Rej("names-chosen-in-depth-first-order-first-free-candidate") ELSE Acc
 
 (* ---------------- the chain ---------------- *)
 A == CASE T.kind = "interpret" -> IntA [] T.kind = "roundtrip" -> RtA [] T.kind = "encode" -> EncA
